@@ -138,6 +138,17 @@ pub struct PullRequest { pub subscription: String, pub return_immediately: bool,
 //@ ensures[C15] request.max_messages >= 1 ==> (match r { Ok(v) => v@.len() <= request.max_messages, Err(_) => true })
 //@ proof-start[C15] { lemma_cast_limit(request.max_messages); }
 //@end
+pub struct PullResponse { pub received_messages: Vec<ReceivedMessage> }
+pub struct PullRpcResponse<T> { pub m: T }
+pub type Response<T> = PullRpcResponse<T>;
+impl<T> PullRpcResponse<T> { pub fn new(m: T) -> (r: Self) ensures r.m == m { PullRpcResponse { m } } }
+//@fn src/api/subscriber.rs SubscriberService::pull tags=C15 name=pull_empty_rule tail=Err(Status::internal("keep~waiting"))
+//@ region /^\s*if request\.return_immediately/ /^\s*if request\.return_immediately/ as fn pull_empty_rule(request: &PullRequest, received_messages: Vec<ReceivedMessage>) -> (r: Result<Response<PullResponse>, Status>)
+//@ # C15: inside the wait loop an empty batch is answered at once only when return_immediately is set (otherwise the
+//@ # handler goes on to wait for the signal; `Err` stands for "falls through to `signal.await`")
+//@ ensures[C15] r.is_ok() ==> request.return_immediately
+//@ ensures[C15] request.return_immediately ==> (match r { Ok(resp) => resp.m.received_messages == received_messages, Err(_) => false })
+//@end
 //@tags C15
 /// for m >= 1 the effective limit of `m as u16` (one message when that is 0) is at most m
 pub proof fn lemma_cast_limit(m: i32)
